@@ -96,11 +96,15 @@ V(o, env) == Eval(o, env)
 PatWord(v, sz) == CASE sz = "b" -> <<v, v, v, v>>
                     [] sz = "h" -> <<v \div 256, v % 256, v \div 256, v % 256>>
                     [] sz = "w" -> <<v \div 16777216, (v \div 65536) % 256, (v \div 256) % 256, v % 256>>
+LE4(v) == <<v % 256, (v \div 256) % 256, (v \div 65536) % 256, v \div 16777216>>     \* a 32-bit word as the bytes the device programs, lowest address first
 Align512(n) == ((n + 511) \div 512) * 512          \* OTFAD images are encrypted in whole 512-byte blocks
 KeyBlobRecordSize == 64                              \* one record of the OTFAD key-blob table
 Expected(st, env) ==
   CASE st.s = "load_blob"   -> Cmd("load", V(st.addr, env), Len(st.blob), 0, st.mem, 0, -1, st.blob)
     [] st.s = "load_file"   -> Cmd("load", V(st.addr, env), Len(st.data), 0, st.mem, 0, -1, st.data)
+    \* load with the memory option of the fuses / IFR (id 4): one PROGRAM command - index, the 4 or 8 stated bytes (an integer is ONE 32-bit word)
+    [] st.s = "prog_pat"    -> Cmd("prog", V(st.addr, env), 4, 0, 4, 0, -1, LE4(st.pat))
+    [] st.s = "prog_blob"   -> Cmd("prog", V(st.addr, env), Len(st.blob), 0, 4, 0, -1, st.blob)
     [] st.s = "fill"        -> Cmd("fill", V(st.addr, env), 4, 0, 0, 0, -1, PatWord(st.pat, st.sz))
     [] st.s = "fill_range"  -> Cmd("fill", V(st.lo, env), V(st.hi, env) - V(st.lo, env), 0, 0, 0, -1, PatWord(st.pat, st.sz))
     [] st.s = "erase_range" -> Cmd("erase", V(st.lo, env), V(st.hi, env) - V(st.lo, env), 0, st.mem, 0, -1, <<>>)
@@ -120,7 +124,7 @@ Expected(st, env) ==
     [] st.s = "keywrap"          -> Cmd("load", V(st.addr, env), KeyBlobRecordSize, 0, 0, st.kb, -1, <<>>)
     [] st.s = "keystore_to_nv"   -> Cmd("keystore_to_nv", V(st.addr, env), 0, 0, st.mem, 0, -1, <<>>)
     [] st.s = "keystore_from_nv" -> Cmd("keystore_from_nv", V(st.addr, env), 0, 0, st.mem, 0, -1, <<>>)
-Operands(st) == CASE st.s \in {"load_blob", "load_file", "fill", "erase_addr", "enable", "keystore_to_nv", "keystore_from_nv", "encrypt", "keywrap"} -> {st.addr}
+Operands(st) == CASE st.s \in {"load_blob", "load_file", "prog_pat", "prog_blob", "fill", "erase_addr", "enable", "keystore_to_nv", "keystore_from_nv", "encrypt", "keywrap"} -> {st.addr}
                   [] st.s \in {"fill_range", "erase_range"} -> {st.lo, st.hi}
                   [] st.s \in {"call", "jump"} -> {st.addr, st.arg}
                   [] st.s = "jump_sp" -> {st.addr, st.arg, st.sp}
@@ -129,5 +133,8 @@ Operands(st) == CASE st.s \in {"load_blob", "load_file", "fill", "erase_addr", "
 StmtDom(st, env) == /\ \A o \in Operands(st) : Dom(o, env) /\ V(o, env) >= 0
                     /\ (st.s \in {"fill_range", "erase_range"} => V(st.hi, env) > V(st.lo, env))
                     /\ (st.s = "fill_range" => (V(st.hi, env) - V(st.lo, env)) % 4 = 0)
-Unsupported == {"if", "if_else", "from", "mode", "info", "warning", "error", "sizeof", "section_list", "load_dot", "symbol_ref", "source_attr"}
+\* pattern_mem_<id>: an integer pattern loaded with the option of an EXTERNAL memory - the only command that carries a pattern (FILL) has no memory
+\* field, so there is no command with the stated operands (id 0, the internal memory, is left out: a FILL would say the same)
+PatternMem == {"pattern_mem_1", "pattern_mem_8", "pattern_mem_9", "pattern_mem_16", "pattern_mem_257", "pattern_mem_288"}
+Unsupported == {"if", "if_else", "from", "mode", "info", "warning", "error", "sizeof", "section_list", "load_dot", "symbol_ref", "source_attr"} \cup PatternMem
 =============================================================================
